@@ -366,22 +366,23 @@ class TokamakEquilibrium(Equilibrium):
 
         if self.user_options.reverse_current:
             warnings.warn("Reversing the sign of the poloidal field")
-            psi2D *= -1.0
-            psi1D *= -1.0
+            # Note: make new arrays, do not modify the caller's inputs in place
+            psi2D = -1.0 * psi2D
+            psi1D = -1.0 * psi1D
 
         if self.user_options.psi_divide_twopi:
             warnings.warn("Dividing poloidal flux by 2pi")
             twopi = 2 * np.pi
-            psi2D /= twopi
-            psi1D /= twopi
+            psi2D = psi2D / twopi
+            psi1D = psi1D / twopi
             if psi_axis_gfile is not None:
-                psi_axis_gfile /= twopi
+                psi_axis_gfile = psi_axis_gfile / twopi
             if psi_bdry_gfile is not None:
-                psi_bdry_gfile /= twopi
+                psi_bdry_gfile = psi_bdry_gfile / twopi
 
         if self.user_options.reverse_Bt:
             warnings.warn("Reversing the sign of the toroidal field")
-            fpol1D *= -1.0
+            fpol1D = -1.0 * fpol1D
 
         self.psi_increasing = psi1D[-1] > psi1D[0]
 
